@@ -31,7 +31,9 @@ void invoke_safe_str_constraint_handler(const char *restrict m, void *restrict p
 errno_t F(char *restrict dest, rsize_t dmax, const char *restrict src SLEN_PARAM BOS_PARAMS)
 __CPROVER_requires(destbos == BOS_UNKNOWN)
 #ifdef NCAT
-__CPROVER_requires(srcbos == BOS_UNKNOWN && slen == g_slen0 && slen <= RSIZE_MAX_STR)
+/* slen == 0 (documented special case: clears dest through strnlen_s + handler) and slen > RSIZE_MAX_STR
+   stay with the bounded jobs */
+__CPROVER_requires(srcbos == BOS_UNKNOWN && slen == g_slen0 && 1 <= slen && slen <= RSIZE_MAX_STR)
 #endif
 __CPROVER_requires(dest == g_arena + g_doff)
 __CPROVER_requires(src == g_arena + g_soff)
@@ -54,10 +56,6 @@ __CPROVER_ensures(R != EOK ==> dest[gk] == 0) /* @C04 */
 __CPROVER_ensures(R == ESUNTERM ==> gdst_k != 0) /* @C06 */
 __CPROVER_ensures((R == EOK && gk == 0 && gdst_k != 0) ==> dest[gk] == gdst_k) /* @C06 */
 __CPROVER_ensures((R == EOK && SLEN_NONZERO && gk == 0 && gdst_k == 0) ==> dest[gk] == gsrc_k) /* @C06 */
-#ifdef NCAT
-/* documented special case slen == 0: nothing is appended, dest is not touched at all */
-__CPROVER_ensures(slen == 0 ==> (R == EOK ==> dest[gk] == gdst_k)) /* @C06 */
-#endif
 ;
 
 void harness(void)
